@@ -80,7 +80,7 @@ def fp(x):
 # ------------------------------------------------------------- PDU histories
 SETTERS = {
     "eof": ("fault_location",),
-    "finished": ("file_store_responses", "fault_location"),
+    "finished": ("file_store_responses", "fault_location", "condition_code"),
     "metadata": ("options", "source_file_name", "dest_file_name"),
     "nak": ("segment_requests", "file_flag"),
     "file_data": ("file_data", "segment_metadata"),
@@ -92,6 +92,8 @@ def rand_step(r, kind, cfg, p):
     s = r.choice(SETTERS[kind])
     if s == "fault_location":
         v = None if r.random() < 0.25 else rand_bytes(r, r.choice(C.WIDTHS)).hex()
+    elif s == "condition_code":
+        v = r.choice(C.CONDS)
     elif s == "file_store_responses":
         v = None if r.random() < 0.15 else [C.rand_response(r) for _ in range(r.choice((0, 1, 1, 2, 3)))]
     elif s == "options":
@@ -117,6 +119,8 @@ def apply_model(kind, cfg, p, step):
     cfg, p = dict(cfg), copy.deepcopy(p)
     if s == "fault_location":
         p["fault_id"] = v
+    elif s == "condition_code":
+        p["cond"] = v
     elif s == "file_store_responses":
         p["responses"] = v or []
     elif s == "options":
@@ -141,6 +145,8 @@ def apply_lib(kind, pdu, step):
     s, v = step
     if s == "fault_location":
         pdu.fault_location = None if v is None else X.EntityIdTlv(bytes.fromhex(v))
+    elif s == "condition_code":
+        pdu.condition_code = X.defs.ConditionCode(v)
     elif s == "file_store_responses":
         pdu.file_store_responses = None if v is None else [C.mk_response(x) for x in v]
     elif s == "options":
